@@ -456,6 +456,12 @@ func (m *RoundMonitor) OnBlock(h *History, b *Block, txs []*GenTx, ref *BlockRes
 		m.Rep.Violation("c11/app/"+kind, what, w)
 	}
 
+	if m.prev != nil && m.prev.LastBlock != nil && cur.LastBlock != nil && cur.LastBlock.Header.HeaderType == block.Suspended &&
+		m.prev.LastBlock.Header.HeaderType != block.Suspended && m.prev.NextTimeout != roothash.TimeoutNever {
+		// (coverage) the runtime was suspended while a round timer was armed
+		m.Blocks["suspended-with-armed-timer"]++
+	}
+
 	// Events of the block, in order: BeginBlock, transactions (those that succeeded), EndBlock.
 	beginEv := rtEvents(h, b.Height, ref.Begin.Events)
 	endEv := rtEvents(h, b.Height, ref.End.Events)
